@@ -65,7 +65,7 @@ func (pc *parentController) syncRollingUpdate(parentRevisions []*parentRevision,
 			}
 			// This child is claimed by another revision, but if it already matches
 			// the desired state in the latest revision, we can move it immediately.
-			child := observedChildren.FindGroupKindName(gvk.GroupKind(), name)
+			child := observedChildren.Convert(latest.parent).FindGroupKindName(gvk.GroupKind(), name)
 			if child == nil {
 				// The child wasn't observed, so we don't know if it'll match latest.
 				continue
@@ -175,7 +175,7 @@ func (pc *parentController) shouldContinueRolling(latest *parentRevision, observ
 			groupKind := schema.GroupKind{
 				Group: ck.APIGroup,
 				Kind:  ck.Kind}
-			child := observedChildren.FindGroupKindName(groupKind, name)
+			child := observedChildren.Convert(latest.parent).FindGroupKindName(groupKind, name)
 			if child == nil {
 				// We didn't observe this child at all, so it's not happy.
 				return fmt.Errorf("missing child %v %v", ck.Kind, name)
